@@ -932,5 +932,166 @@ def target_circuitikz():
     return (f"{TIKZ}:to_circuitikz", TIKZ, "to_circuitikz", run)
 
 
+# ------------------------------------------------------------------------------------------------ to_stack
+
+class StackList:
+    """the list Circuit.to_stack fills: ghost counters instead of contents.  cnt[e]: entries for element e; opens/closes[m]: opening
+    / closing entries for connection m; depth = opens - closes so far (a closer needs an opener of the same call)"""
+    OPEN = {"[": H.K_SERIES, "(": H.K_PARALLEL}
+    CLOSE = {"]": H.K_SERIES, ")": H.K_PARALLEL}
+
+    def __init__(self, items=(), symbolic=True):
+        c = ctx()
+        n = next(c.fresh)
+        arr = z3.ArraySort(NodeS, I)
+        if symbolic:
+            self.g = H.Ghost("stack", depth=z3.Int(f"sdepth!{n}"), cnt=z3.Const(f"cnt!{n}", arr), opens=z3.Const(f"opens!{n}", arr), closes=z3.Const(f"closes!{n}", arr))
+        else:
+            zero = z3.K(NodeS, z3.IntVal(0))
+            self.g = H.Ghost("stack", depth=z3.IntVal(0), cnt=zero, opens=zero, closes=zero)
+        self.floor = self.g.f["depth"]
+        self.entries: List[Any] = []
+
+    def __getitem__(self, k):
+        return ("part of the stack", k)          # whatever is made of it is not the stack itself
+
+    def append(self, item):
+        c = ctx()
+        ok = isinstance(item, tuple) and len(item) == 2 and isinstance(item[0], str)
+        c.check("to_stack appends (text, object) pairs", z3.BoolVal(ok), "call-pre")
+        if not ok:
+            return
+        text, obj = item
+        g = self.g.f
+        self.entries.append(item)
+        if isinstance(obj, H.NodeBase) and (text in self.OPEN or text in self.CLOSE):
+            want = self.OPEN.get(text, self.CLOSE.get(text))
+            c.check("a bracket entry carries the connection it belongs to, with the bracket of its kind ([ ] series, ( ) parallel)", kind(obj.t) == want, "call-pre")
+            if text in self.OPEN:
+                g["opens"] = z3.Store(g["opens"], obj.t, z3.Select(g["opens"], obj.t) + 1)
+                g["depth"] = g["depth"] + 1
+            else:
+                c.check("a closing bracket closes a bracket opened by the same call", g["depth"] > self.floor, "call-pre")
+                g["closes"] = z3.Store(g["closes"], obj.t, z3.Select(g["closes"], obj.t) + 1)
+                g["depth"] = g["depth"] - 1
+        else:
+            is_el = isinstance(obj, H.NodeBase)
+            c.check("any other entry is an element with its own description code", z3.BoolVal(is_el and text == f"⟦to_string({obj.t})⟧") if is_el else z3.BoolVal(False), "call-pre")
+            if is_el:
+                c.check("an element entry is an element", is_elem(obj.t), "call-pre")
+                g["cnt"] = z3.Store(g["cnt"], obj.t, z3.Select(g["cnt"], obj.t) + 1)
+
+
+def target_to_stack():
+    """Series.to_stack / Parallel.to_stack / Circuit.to_stack (the flattened form the exporters and the GUI walk): for every tree,
+    the entries appended for a connection are its opening bracket, then what its children append, in order, then its closing
+    bracket -- `[`/`]` for a series and `(`/`)` for a parallel connection, each carrying the connection itself; every element at or
+    below the connection gets exactly one entry (its own description code), every connection exactly one opening and one closing
+    entry, brackets balance; Circuit.to_stack returns the stack of its top-level connection, starting from an empty list."""
+    def run(sess: Session):
+        sess.assumptions.append(H.TREE_ASSUMPTION)
+        space = H.NodeSpace([], generic_element="Element1")
+        specs = H.LoopSpecs()
+        ns = H.base_namespace(space)
+        ns["isinstance"] = _isinstance(space)
+        space.Element.to_string = lambda self, *a, **k: ctx().placeholder(f"to_string({self.t})", ("to_string", self))
+        space.Connection.to_string = space.Element.to_string
+        base = H.tree_axioms()
+        st: Dict[str, Any] = {}
+        counts = {"paths": 0}
+
+        def ghost():
+            return ctx().state["ghost:stack"].f
+
+        def effect(n):
+            c = ctx()
+            g = ghost()
+            e = z3.Const("e", NodeS)
+            for fld, cond in (("cnt", lambda x: below(n, x)), ("opens", lambda x: z3.And(sub(n, x), is_conn(x))), ("closes", lambda x: z3.And(sub(n, x), is_conn(x)))):
+                old = g[fld]
+                new = z3.Const(f"{fld}!{next(c.fresh)}", z3.ArraySort(NodeS, I))
+                c.assume(z3.ForAll([e], z3.Select(new, e) == z3.Select(old, e) + z3.If(cond(e), 1, 0), patterns=[z3.Select(new, e)]))
+                g[fld] = new
+
+        def s_to_stack(self, stack):
+            c = ctx()
+            check_wf("to_stack is called on a well-formed connection", self.t)
+            c.check("the same stack is handed down", z3.BoolVal(stack is st["stack"]), "call-pre")
+            effect(self.t)
+        space.Connection.to_stack = s_to_stack
+
+        def inv(env):
+            g = ghost()
+            n, e0 = st["n"], st["e0"]
+            done = z3.And(sub(n, e0), e0 != n, br(n, e0) < env.i)
+            return [("brackets balance up to the connection's own opener", g["depth"] == st["g0"]["depth"] + 1),
+                    ("one entry per element below the visited children", z3.Select(g["cnt"], e0) == z3.Select(st["g0"]["cnt"], e0) + z3.If(z3.And(done, is_elem(e0)), 1, 0)),
+                    ("one opener per connection below the visited children, and the connection's own", z3.Select(g["opens"], e0) == z3.Select(st["g0"]["opens"], e0) + z3.If(z3.Or(e0 == n, z3.And(done, is_conn(e0))), 1, 0)),
+                    ("one closer per connection below the visited children", z3.Select(g["closes"], e0) == z3.Select(st["g0"]["closes"], e0) + z3.If(z3.And(done, is_conn(e0)), 1, 0))]
+        vc = H.VC(specs, space)
+        no_raise = make_no_raise("circuit/series")
+        for module, cls, k in (("circuit/series", "Series", H.K_SERIES), ("circuit/parallel", "Parallel", H.K_PARALLEL)):
+            label = f"{cls}.to_stack"
+            specs.inv[(label, 1)] = inv
+            real = H.build_function(core.find_def(module, f"{cls}.to_stack"), ns, vc, label=label)
+
+            def go(c, real=real, k=k, label=label):
+                counts["paths"] += 1
+                t, e0 = z3.Const("node", NodeS), z3.Const("e0", NodeS)
+                c.assume(wf(t), kind(t) == k, z3.Not(H.is_wire(t)), H.descent(t, e0))
+                c.skolems.append(e0)
+                n = space.node_of(t)
+                stack = StackList()
+                st.update(n=t, e0=e0, g0=dict(stack.g.f), stack=stack)
+                ok, _ = no_raise(label, lambda: real(n, stack))
+                if not ok:
+                    return
+                g, g0 = stack.g.f, st["g0"]
+                c.canary(f"{label}, at return")
+                c.check(f"{label}: every element at or below the connection gets exactly one entry", z3.Select(g["cnt"], e0) == z3.Select(g0["cnt"], e0) + z3.If(below(t, e0), 1, 0), "post")
+                both = z3.If(z3.And(sub(t, e0), is_conn(e0)), 1, 0)
+                c.check(f"{label}: every connection at or below it gets exactly one opening and one closing entry",
+                        z3.And(z3.Select(g["opens"], e0) == z3.Select(g0["opens"], e0) + both, z3.Select(g["closes"], e0) == z3.Select(g0["closes"], e0) + both), "post")
+                c.check(f"{label}: brackets balance", g["depth"] == g0["depth"], "post")
+                first, last = (stack.entries[0], stack.entries[-1]) if len(stack.entries) >= 2 else (None, None)
+                o, cl = ("[", "]") if k == H.K_SERIES else ("(", ")")
+                c.check(f"{label}: the entries start with the connection's own opener and end with its own closer",
+                        z3.BoolVal(first is not None and first[0] == o and first[1] is n and last[0] == cl and last[1] is n), "post")
+            H.explore(sess, base, go)
+
+        # Circuit.to_stack
+        made: List[StackList] = []
+
+        def factory(items):
+            s_ = StackList(symbolic=False)
+            made.append(s_)
+            st["stack"] = s_
+            return s_
+        vc.factories = {"stack": factory}
+        real_c = H.build_function(core.find_def("circuit/circuit", "Circuit.to_stack"), ns, vc, label="Circuit.to_stack")
+
+        def go_c(c):
+            counts["paths"] += 1
+            del made[:]
+            t, e0 = z3.Const("root", NodeS), z3.Const("e0", NodeS)
+            c.assume(wf(t), is_conn(t), z3.Not(H.is_wire(t)), H.descent(t, e0))
+            c.skolems.append(e0)
+            root = space.node_of(t)
+            me = type("Circuit", (), {"_elements": root})()
+            ok, out = no_raise("Circuit.to_stack", lambda: real_c(me))
+            if not ok:
+                return
+            c.check("Circuit.to_stack returns the list it made", z3.BoolVal(len(made) == 1 and out is made[0]), "post")
+            if len(made) != 1:
+                return
+            g = made[0].g.f
+            c.check("Circuit.to_stack: one entry per element of the circuit, one opener and one closer per connection, balanced",
+                    z3.And(z3.Select(g["cnt"], e0) == z3.If(below(t, e0), 1, 0), z3.Select(g["opens"], e0) == z3.If(z3.And(sub(t, e0), is_conn(e0)), 1, 0),
+                           z3.Select(g["closes"], e0) == z3.Select(g["opens"], e0), g["depth"] == 0), "post")
+        H.explore(sess, base, go_c)
+        sess.check("cover", [], z3.BoolVal(counts["paths"] >= 8), 0, label=f"paths executed: {counts['paths']}")
+    return ("circuit/series:Series.to_stack / Parallel.to_stack / Circuit.to_stack", "circuit/series", "Series.to_stack", run)
+
+
 def targets():      # noqa: F811
-    return [target_to_drawing(), target_circuitikz()]
+    return [target_to_drawing(), target_circuitikz(), target_to_stack()]
